@@ -307,7 +307,48 @@ def _m_upper(eng, args, kwargs):
     raise ProgExc(TypeError, "descriptor 'upper' requires a 'str' object")
 
 
+# ------------------------------------------------- exception objects in handlers
+class _TB:  # marker classes of the traceback model
+    pass
+
+
+class _OpaqueName:
+    """an unknown function name: every comparison with a text is an independent unknown"""
+
+    def __eq__(self, other):
+        return fresh("bool", "name_eq")
+
+    __hash__ = object.__hash__
+
+
+A_TB = ("exception model: __cause__ of an exception raised by a contract-level call is None or some exception object; "
+        "__traceback__ is a chain of 3 frames with unknown function names")
+
+
+def _exc_getattr(self, eng, name):
+    if name == "__cause__":
+        if self.cause is not None:
+            return self.cause
+        if not hasattr(self, "_c15_cause"):
+            eng.assumptions.add(A_TB)
+            self._c15_cause = Obj(ValueError, {}, name="cause") if eng.branch(fresh("bool", "has_cause")) else None
+        return self._c15_cause
+    if name == "__traceback__":
+        if not hasattr(self, "_c15_tb"):
+            eng.assumptions.add(A_TB)
+            tb = None
+            for _ in range(3):
+                tb = Obj(_TB, dict(tb_next=tb, tb_frame=Obj(_TB, dict(f_code=Obj(_TB, dict(co_name=_OpaqueName()))))), name="traceback")
+            self._c15_tb = tb
+        return self._c15_tb
+    try:
+        return getattr(self, name)
+    except AttributeError:
+        raise ProgExc(AttributeError, name)
+
+
 def install():
+    ProgExc.__pyvc_getattr__ = _exc_getattr
     m = _mod()
     models.EXTRA_MODELS[next] = _m_next
     models.EXTRA_MODELS[str.upper] = _m_upper
